@@ -1,8 +1,11 @@
 (* Layer 2 — hand model of pkg/jsonline's values and rows (value.go, row.go), function for
-   function. A row is the Go triple reduced to what is ever read: the map from keys to cells
-   and the container/list of keys (the key->element index is written but never read).
-   Everything is purely functional; recursion through nested rows is by explicit fuel, with
-   [Fuel] as a distinct outcome. *)
+   function, for the code as it is in /repo now (after the fix: commits recorded in
+   known-findings.json). A row is the Go triple reduced to what is ever read: the map from keys
+   to cells and the container/list of keys (the key->element index is written but never read).
+   Everything is purely functional: a method that mutates through a pointer returns the new
+   value. Recursion through nested rows / nested imported values is by explicit fuel, with
+   [Fuel] as a distinct outcome. Sharing of one Value between two rows is outside this model
+   (see Heap.v, property C15). *)
 From Coq Require Import ZArith List Bool Lia.
 From JL.std Require Import GoBase GoFloat GoStrconv GoTime GoVal GoBase64.
 From JL.gen Require Import CastGen ConvGen.
@@ -25,11 +28,10 @@ Inductive rv :=
 | RS (g : gval)                  (* nil, scalars, and every dynamic type cast cannot tell apart *)
 | RArr (l : list rv)             (* []interface{} *)
 | RMap (m : list (str * rv))     (* map[string]interface{}; the list order is the iteration order *)
-| RRow (r : crow)                (* a Row held as a raw value (what the JSON reader builds) *)
-with cell :=                     (* a jsonline.Value held by a row *)
+| RV (c : cell)                  (* a jsonline Value (a *value or a Row) held in an interface{} *)
+with cell :=                     (* a jsonline.Value *)
 | CVal (raw : rv) (f : format) (typ : gval)   (* *value *)
 | CRow (r : crow)                             (* a Row used as a Value *)
-| CNil                                        (* a nil Value interface *)
 with crow := MkRow (m : list (str * cell)) (l : list str).
 
 Definition rnil : rv := RS VNil.
@@ -39,13 +41,13 @@ Definition new_row : crow := MkRow [] [].
 
 Definition rv_is_nil (v : rv) : bool := match v with RS VNil => true | _ => false end.
 
-(* how pkg/cast sees a raw value: composites fall in its default branches *)
+(* how pkg/cast sees a raw value: composites and jsonline values fall in its default branches *)
 Definition to_gval (v : rv) : gval :=
   match v with
   | RS g => g
   | RArr _ => VOther 23
   | RMap _ => VOther 21
-  | RRow _ => VOther 22
+  | RV _ => VOther 22
   end.
 
 (* ---------- association lists standing for Go maps ---------- *)
@@ -68,11 +70,34 @@ Definition ahas {A} (k : str) (m : list (str * A)) : bool :=
 Definition key_at (l : list str) (index : Z) : str :=
   if index <? 0 then [] else nth (Z.to_nat index) l [].
 
+(* strings.Split(s, ".") *)
+Fixpoint split_dot_aux (s cur : str) : list str :=
+  match s with
+  | [] => [rev cur]
+  | c :: r => if c =? 46 then rev cur :: split_dot_aux r [] else split_dot_aux r (c :: cur)
+  end.
+Definition split_dot (s : str) : list str := split_dot_aux s [].
+
+Definition lift (r : res gval) : res rv :=
+  match r with Ok g => Ok (RS g) | Err e => Err e | Panic => Panic | Fuel => Fuel end.
+
+Definition no_err {A} (r : res A) : res unit :=
+  match r with Ok _ => Ok tt | Err e => Err e | Panic => Panic | Fuel => Fuel end.
+
+(* same dynamic type (what a comma-ok type assertion tests) *)
+Definition same_kind (a b : gval) : bool :=
+  match a, b with
+  | VBool _, VBool _ | VF64 _, VF64 _ | VF32 _, VF32 _ | VStr _, VStr _ | VBytes _, VBytes _
+  | VNum _, VNum _ | VTime _, VTime _ => true
+  | VInt k _, VInt k' _ => ikind_eqb k k'
+  | _, _ => false
+  end.
+
+(* zero values of the typed getters *)
+Definition zero_time : gtime := {| tsec := -62135596800; tnsec := 0; toff := 0 |}.
+
 Section WithOracles.
   Context (O : oracles).
-
-  Definition lift (r : res gval) : res rv :=
-    match r with Ok g => Ok (RS g) | Err e => Err e | Panic => Panic | Fuel => Fuel end.
 
   (* cast.To(typ, v): with a nil sample it hands the value back untouched, composites included *)
   Definition cast_to (typ : gval) (v : rv) : res rv :=
@@ -84,7 +109,7 @@ Section WithOracles.
     | Err e => Err e | Panic => Panic | Fuel => Fuel
     end.
 
-  (* NewValue(v, f, rawtype): keeps the uncast value when the cast fails *)
+  (* NewValue(v, f, rawtype): keeps the uncast value when the cast fails (value.go:83) *)
   Definition new_value (v : rv) (f : format) (typ : gval) : res cell :=
     match cast_to typ v with
     | Ok r => Ok (CVal r f typ)
@@ -94,18 +119,16 @@ Section WithOracles.
 
   Definition new_value_auto (v : rv) : cell := CVal v FAuto VNil.
 
-  Definition cell_format (c : cell) : res format :=
-    match c with CVal _ f _ => Ok f | CRow _ => Ok FAuto | CNil => Panic end.
-  Definition cell_rawtype (c : cell) : res gval :=
-    match c with CVal _ _ t => Ok t | CRow _ => Ok VNil | CNil => Panic end.
+  Definition cell_format (c : cell) : format := match c with CVal _ f _ => f | CRow _ => FAuto end.
+  Definition cell_rawtype (c : cell) : gval := match c with CVal _ _ t => t | CRow _ => VNil end.
 
-  (* ---------- Raw() ---------- *)
+  (* ---------- Raw() (value.go:189, row.go:129) ---------- *)
   Fixpoint cells_raw (rec : cell -> res rv) (m : list (str * cell)) (l : list str) : res (list (str * rv)) :=
     match l with
     | [] => Ok []
     | k :: l' =>
         match alookup k m with
-        | None => Panic                       (* r.m[k] is a nil Value: method call on nil interface *)
+        | None => Panic                       (* r.m[k] is a nil Value: method call on a nil interface *)
         | Some c => bind (rec c) (fun v => bind (cells_raw rec m l') (fun t => Ok (aset k v t)))
         end
     end.
@@ -117,13 +140,12 @@ Section WithOracles.
         match c with
         | CVal raw _ _ => Ok raw
         | CRow (MkRow m l) => bind (cells_raw (cell_raw n') m l) (fun t => Ok (RMap t))
-        | CNil => Panic
         end
     end.
 
   Definition row_raw (n : nat) (r : crow) : res rv := cell_raw n (CRow r).
 
-  (* ---------- Export() ---------- *)
+  (* ---------- Export() (value.go:193, row.go:141) ---------- *)
   Definition export_scalar (f : format) (raw : rv) : res rv :=
     match f with
     | FString => lift (exportToString O (to_gval raw))
@@ -137,33 +159,17 @@ Section WithOracles.
     | FBad => Err ErrUnsupportedFormat
     end.
 
-  Fixpoint cells_export (rec : cell -> res rv) (m : list (str * cell)) (l : list str) : res (list (str * rv)) :=
-    match l with
-    | [] => Ok []
-    | k :: l' =>
-        match alookup k m with
-        | None => Panic
-        | Some c => bind (rec c) (fun v => bind (cells_export rec m l') (fun t => Ok (aset k v t)))
-        end
-    end.
-
   Fixpoint cell_export (n : nat) (c : cell) : res rv :=
     match n with
     | 0%nat => Fuel
     | S n' =>
         match c with
         | CVal raw f _ => if rv_is_nil raw then Ok rnil else export_scalar f raw
-        | CRow (MkRow m l) =>
-            match cells_export (cell_export n') m l with
-            | Ok t => Ok (RMap t)
-            | Err _ => Err ErrNoWrap     (* fmt.Errorf("%w", err): the class of the inner error is kept by the caller *)
-            | Panic => Panic | Fuel => Fuel
-            end
-        | CNil => Panic
+        | CRow (MkRow m l) => bind (cells_raw (cell_export n') m l) (fun t => Ok (RMap t))
         end
     end.
 
-  (* ---------- Import(val) on a *value ---------- *)
+  (* ---------- Import(val) on a *value (value.go:221) ---------- *)
   Definition import_scalar (f : format) (typ : gval) (v : rv) : res rv :=
     match f with
     | FString => lift (importFromString O (to_gval v) typ)
@@ -177,13 +183,14 @@ Section WithOracles.
     | FBad => Err ErrUnsupportedFormat
     end.
 
-  (* the cell after the call, and the error if any: a failed import leaves a nil raw value *)
+  (* the *value after the call, and the error if any. A failed conversion leaves a nil raw
+     value (v.raw, err = f(...) assigns the nil result). *)
   Definition value_import (n : nat) (raw : rv) (f : format) (typ : gval) (v : rv) : cell * res unit :=
     if rv_is_nil v then (CVal rnil f typ, Ok tt)
     else match v with
-         | RRow r =>            (* val.(Value): format, raw and raw type are taken from it *)
-             match row_raw n r with
-             | Ok m => (CVal m FAuto VNil, Ok tt)
+         | RV c =>            (* val.(Value): format, raw and raw type are taken from it *)
+             match cell_raw n c with
+             | Ok m => (CVal m (cell_format c) (cell_rawtype c), Ok tt)
              | Err e => (CVal raw f typ, Err e)
              | Panic => (CVal raw f typ, Panic)
              | Fuel => (CVal raw f typ, Fuel)
@@ -204,25 +211,28 @@ Section WithOracles.
   Definition set_cell (k : str) (c : cell) (r : crow) : crow :=
     let '(MkRow m l) := r in MkRow (aset k c m) l.
 
-  (* SetValue(key, val) *)
-  Definition set_value (k : str) (c : cell) (r : crow) : crow := set_cell k c (push_if_absent k r).
+  (* SetValue(key, val) (row.go); a nil Value is stored as an Auto value holding nil *)
+  Definition set_value (k : str) (c : option cell) (r : crow) : crow :=
+    set_cell k (match c with Some c => c | None => new_value_auto rnil end) (push_if_absent k r).
 
-  Definition set_value_at_index (i : Z) (c : cell) (r : crow) : crow := set_value (key_at (row_l r) i) c r.
+  Definition set_value_at_index (i : Z) (c : option cell) (r : crow) : crow :=
+    set_value (key_at (row_l r) i) c r.
 
   (* the Value a raw argument is, when it is one (val.(Value)) *)
-  Definition as_value (v : rv) : option cell := match v with RRow r => Some (CRow r) | _ => None end.
+  Definition as_value (v : rv) : option cell := match v with RV c => Some c | _ => None end.
 
-  (* Set(key, val) *)
+  (* Set(key, val) (row.go:283) *)
   Definition row_set (k : str) (v : rv) (r : crow) : res crow :=
     let r1 := push_if_absent k r in
     match alookup k (row_m r) with
     | Some c =>
-        bind (cell_rawtype c) (fun typ => bind (cell_format c) (fun f =>
-          match cast_to typ v with
-          | Ok _ => bind (new_value v f typ) (fun c' => Ok (set_cell k c' r1))
-          | Err _ => bind (new_value rnil f typ) (fun c' => Ok (set_cell k c' r1))
-          | Panic => Panic | Fuel => Fuel
-          end))
+        let typ := cell_rawtype c in
+        let f := cell_format c in
+        match cast_to typ v with
+        | Ok _ => bind (new_value v f typ) (fun c' => Ok (set_cell k c' r1))
+        | Err _ => bind (new_value rnil f typ) (fun c' => Ok (set_cell k c' r1))
+        | Panic => Panic | Fuel => Fuel
+        end
     | None =>
         match as_value v with
         | Some c => Ok (set_cell k c r1)
@@ -232,19 +242,40 @@ Section WithOracles.
 
   Definition row_set_at_index (i : Z) (v : rv) (r : crow) : res crow := row_set (key_at (row_l r) i) v r.
 
-  (* ImportAtKey / ImportAtIndex / Import, mutually recursive through nested rows *)
-  Fixpoint import_at_key (n : nat) (k : str) (v : rv) (r : crow) : crow * res unit :=
+  (* the two loops of row.Import (row.go:157), over the ImportAtKey they call *)
+  Fixpoint import_arr (iak : str -> rv -> crow -> crow * res unit) (i : Z) (vals : list rv) (r : crow) : crow * res unit :=
+    match vals with
+    | [] => (r, Ok tt)
+    | x :: rest =>
+        let '(r', e) := iak (key_at (row_l r) i) x r in
+        match e with Ok _ => import_arr iak (i + 1) rest r' | _ => (r', e) end
+    end.
+  Fixpoint import_map (iak : str -> rv -> crow -> crow * res unit) (kvs : list (str * rv)) (r : crow) : crow * res unit :=
+    match kvs with
+    | [] => (r, Ok tt)
+    | (k, x) :: rest =>
+        let '(r', e) := iak k x r in
+        match e with Ok _ => import_map iak rest r' | _ => (r', e) end
+    end.
+
+  (* Import(val) on any Value, ImportAtKey / ImportAtIndex / row.Import — mutually recursive
+     through nested rows (row.go:157-205) *)
+  Fixpoint cell_import (n : nat) (c : cell) (v : rv) : cell * res unit :=
+    match n with
+    | 0%nat => (c, Fuel)
+    | S n' =>
+        match c with
+        | CVal raw f typ => value_import n' raw f typ v
+        | CRow sub => let '(sub', e) := row_import n' v sub in (CRow sub', e)
+        end
+    end
+  with import_at_key (n : nat) (k : str) (v : rv) (r : crow) : crow * res unit :=
     match n with
     | 0%nat => (r, Fuel)
     | S n' =>
         let r1 := push_if_absent k r in
         match alookup k (row_m r) with
-        | Some (CVal raw f typ) =>
-            let '(c', e) := value_import n' raw f typ v in
-            (set_cell k c' r1, match e with Ok _ => Ok tt | Err x => Err x | Panic => Panic | Fuel => Fuel end)
-        | Some (CRow sub) =>
-            let '(sub', e) := row_import n' v sub in (set_cell k (CRow sub') r1, e)
-        | Some CNil => (r1, Panic)
+        | Some c => let '(c', e) := cell_import n' c v in (set_cell k c' r1, e)
         | None =>
             match as_value v with
             | Some c => (set_cell k c r1, Ok tt)
@@ -257,22 +288,8 @@ Section WithOracles.
     | 0%nat => (r, Fuel)
     | S n' =>
         match v with
-        | RArr vals =>
-            (fix go (i : Z) (vals : list rv) (r : crow) : crow * res unit :=
-               match vals with
-               | [] => (r, Ok tt)
-               | x :: rest =>
-                   let '(r', e) := import_at_key n' (key_at (row_l r) i) x r in
-                   match e with Ok _ => go (i + 1) rest r' | _ => (r', e) end
-               end) 0 vals r
-        | RMap kvs =>
-            (fix go (kvs : list (str * rv)) (r : crow) : crow * res unit :=
-               match kvs with
-               | [] => (r, Ok tt)
-               | (k, x) :: rest =>
-                   let '(r', e) := import_at_key n' k x r in
-                   match e with Ok _ => go rest r' | _ => (r', e) end
-               end) kvs r
+        | RArr vals => import_arr (import_at_key n') 0 vals r
+        | RMap kvs => import_map (import_at_key n') kvs r
         | _ => (r, Err ErrUnsupportedImportType)
         end
     end.
@@ -280,27 +297,172 @@ Section WithOracles.
   Definition import_at_index (n : nat) (i : Z) (v : rv) (r : crow) : crow * res unit :=
     import_at_key n (key_at (row_l r) i) v r.
 
+  (* UnmarshalJSON(data) seen from the row (row.go parseobject): the top-level members whose
+     value was completely parsed, in order, and whether the text was syntactically one object.
+     An existing key is imported into, a new key gets an Auto value; the first import error
+     stops the traversal. *)
+  Fixpoint unmarshal_members (n : nat) (ms : list (str * rv)) (r : crow) : crow * res unit :=
+    match ms with
+    | [] => (r, Ok tt)
+    | (k, v) :: rest =>
+        match alookup k (row_m r) with
+        | Some c =>
+            let '(c', e) := cell_import n c v in
+            match e with
+            | Ok _ => unmarshal_members n rest (set_cell k c' r)
+            | _ => (set_cell k c' r, e)
+            end
+        | None => unmarshal_members n rest (set_cell k (new_value_auto v) (push_if_absent k r))
+        end
+    end.
+
+  Definition row_unmarshal (n : nat) (ms : list (str * rv)) (syntax_ok : bool) (r : crow) : crow * res unit :=
+    let '(r', e) := unmarshal_members n ms r in
+    match e with
+    | Ok _ => (r', if syntax_ok then Ok tt else Err ErrNoWrap)
+    | _ => (r', e)
+    end.
+
   (* ---------- readers ---------- *)
   Definition row_has (k : str) (r : crow) : bool := ahas k (row_m r).
   Definition row_len (r : crow) : Z := Z.of_nat (length (row_l r)).
   Definition get_value (k : str) (r : crow) : option cell := alookup k (row_m r).
   Definition get_value_at_index (i : Z) (r : crow) : option cell := get_value (key_at (row_l r) i) r.
 
-  (* Get(key): (raw, true) | (nil, false); a nil Value panics *)
+  (* Get(key): (raw, true) | (nil, false) *)
   Definition row_get (n : nat) (k : str) (r : crow) : res (option rv) :=
     match get_value k r with
     | Some c => bind (cell_raw n c) (fun v => Ok (Some v))
     | None => Ok None
     end.
   Definition row_get_at_index (n : nat) (i : Z) (r : crow) : res (option rv) := row_get n (key_at (row_l r) i) r.
+  Definition row_get_or_nil (n : nat) (k : str) (r : crow) : res rv :=
+    bind (row_get n k r) (fun o => Ok (match o with Some v => v | None => rnil end)).
 
-  (* IterValues / Iter: the pairs in list order *)
+  (* IterValues: the pairs in list order (a key of the list missing from the map yields a nil Value) *)
   Definition iter_values (r : crow) : list (str * option cell) :=
     map (fun k => (k, alookup k (row_m r))) (row_l r).
 
-  (* CloneRow: one fresh value per key, built from Raw(), format and raw type *)
+  (* Iter: keys with Raw() of each value *)
+  Fixpoint iter_raw (n : nat) (m : list (str * cell)) (l : list str) : res (list (str * rv)) :=
+    match l with
+    | [] => Ok []
+    | k :: l' =>
+        match alookup k m with
+        | None => Panic
+        | Some c => bind (cell_raw n c) (fun v => bind (iter_raw n m l') (fun t => Ok ((k, v) :: t)))
+        end
+    end.
+
+  (* the row a Value gives access to for path navigation: a Row, or a value holding a Row *)
+  Definition sub_row (c : cell) : option crow :=
+    match c with
+    | CRow r => Some r
+    | CVal (RV (CRow r)) _ _ => Some r
+    | CVal _ _ _ => None
+    end.
+
+  (* GetValueAtPath(path) over the split path (row.go:349) *)
+  Fixpoint get_value_at_keys (keys : list str) (r : crow) : option cell :=
+    match keys with
+    | [] => Some (CRow r)          (* not reachable: strings.Split never returns an empty slice *)
+    | [k] => get_value k r
+    | k :: rest =>
+        match get_value k r with
+        | None => None
+        | Some c => match sub_row c with Some sub => get_value_at_keys rest sub | None => None end
+        end
+    end.
+  Definition get_value_at_path (p : str) (r : crow) : option cell := get_value_at_keys (split_dot p) r.
+
+  Definition get_at_path (n : nat) (p : str) (r : crow) : res (option rv) :=
+    match get_value_at_path p r with
+    | Some c => bind (cell_raw n c) (fun v => Ok (Some v))
+    | None => Ok None
+    end.
+
+  (* ImportAtPath(path, val): value.Import(val) through the pointer GetValueAtPath returned;
+     functionally, the row rebuilt along the path (row.go:207) *)
+  Fixpoint import_at_keys (n : nat) (keys : list str) (v : rv) (r : crow) : option (crow * res unit) :=
+    match keys with
+    | [] => None
+    | [k] =>
+        match get_value k r with
+        | None => None
+        | Some c => let '(c', e) := cell_import n c v in Some (set_cell k c' r, e)
+        end
+    | k :: rest =>
+        match get_value k r with
+        | None => None
+        | Some (CRow sub) =>
+            match import_at_keys n rest v sub with
+            | Some (sub', e) => Some (set_cell k (CRow sub') r, e)
+            | None => None
+            end
+        | Some (CVal (RV (CRow sub)) f t) =>
+            match import_at_keys n rest v sub with
+            | Some (sub', e) => Some (set_cell k (CVal (RV (CRow sub')) f t) r, e)
+            | None => None
+            end
+        | Some (CVal _ _ _) => None
+        end
+    end.
+
+  Definition import_at_path (n : nat) (p : str) (v : rv) (r : crow) : crow * res unit :=
+    match import_at_keys n (split_dot p) v r with
+    | Some (r', e) => (r', e)
+    | None => (r, Err ErrPathNotFound)
+    end.
+
+  (* the loop of FindValuesAtPath over the elements of an array: rows that have the path contribute *)
+  Fixpoint find_in_elems (rec : crow -> res (option (list cell))) (elems : list rv) : res (option (list cell)) :=
+    match elems with
+    | [] => Ok (Some [])
+    | RV (CRow er) :: more =>
+        bind (rec er) (fun found =>
+        bind (find_in_elems rec more) (fun tl =>
+          Ok (match found, tl with
+              | Some vs, Some t => Some (vs ++ t)
+              | None, Some t => Some t
+              | _, None => None
+              end)))
+    | _ :: more => find_in_elems rec more
+    end.
+
+  (* FindValuesAtPath(path) over the split path (row.go:375): SplitN(path, ".", 2) at each level *)
+  Fixpoint find_values_at_keys (n : nat) (keys : list str) (r : crow) : res (option (list cell)) :=
+    match n with
+    | 0%nat => Fuel
+    | S n' =>
+        match keys with
+        | [] => Ok None
+        | [k] => Ok (match get_value k r with Some c => Some [c] | None => None end)
+        | k :: rest =>
+            match get_value k r with
+            | None => Ok None
+            | Some (CRow sub) => find_values_at_keys n' rest sub
+            | Some (CVal (RV (CRow sub)) _ _) => find_values_at_keys n' rest sub
+            | Some (CVal (RArr elems) _ _) => find_in_elems (find_values_at_keys n' rest) elems
+            | Some (CVal _ _ _) => Ok None
+            end
+        end
+    end.
+  Definition find_values_at_path (n : nat) (p : str) (r : crow) : res (option (list cell)) :=
+    find_values_at_keys n (split_dot p) r.
+
+  (* typed getters (row.go:GetString ...): cast.ToX(GetOrNil(key)) then a comma-ok assertion *)
+  Definition typed_get (n : nat) (sample : gval) (zero : gval) (k : str) (r : crow) : res gval :=
+    bind (row_get_or_nil n k r) (fun v =>
+      match To O sample (to_gval v) with
+      | Ok g => if same_kind g zero then Ok g else Ok zero
+      | Err _ => Ok zero
+      | Panic => Panic
+      | Fuel => Fuel
+      end).
+
+  (* CloneRow: one fresh value per key, built from Raw(), format and raw type (row.go:117) *)
   Definition clone_value (n : nat) (c : cell) : res cell :=
-    bind (cell_raw n c) (fun raw => bind (cell_format c) (fun f => bind (cell_rawtype c) (fun t => new_value raw f t))).
+    bind (cell_raw n c) (fun raw => new_value raw (cell_format c) (cell_rawtype c)).
 
   Fixpoint clone_cells (n : nat) (m : list (str * cell)) (l : list str) (acc : crow) : res crow :=
     match l with
@@ -308,7 +470,7 @@ Section WithOracles.
     | k :: l' =>
         match alookup k m with
         | None => Panic
-        | Some c => bind (clone_value n c) (fun c' => clone_cells n m l' (set_value k c' acc))
+        | Some c => bind (clone_value n c) (fun c' => clone_cells n m l' (set_value k (Some c') acc))
         end
     end.
 
